@@ -743,6 +743,22 @@ fn run(case: &Case, out: &mut Out) {
                 slot_oracle(s, out);
                 out.obs(&obs);
             }
+            "blackbox" => {
+                // replay of one black-box scenario: run the sibling binary and relay its verdicts
+                let exe = std::env::current_exe().ok().and_then(|p| p.parent().map(|d| d.join("c15bb")));
+                if let Some(exe) = exe {
+                    if let Ok(o) = std::process::Command::new(exe).arg("thorough").arg(a[0].s()).output() {
+                        for l in String::from_utf8_lossy(&o.stdout).lines() {
+                            if let Some(rest) = l.strip_prefix("viol ") {
+                                let mut it = rest.splitn(2, ' ');
+                                let class = it.next().unwrap_or("bb");
+                                out.viol(class, it.next().unwrap_or(""));
+                            }
+                        }
+                    }
+                }
+                out.obs(&[]);
+            }
             other => {
                 out.note(&format!("invalid-case: unknown op {other}"));
                 out.obs(&[]);
